@@ -64,13 +64,13 @@ Proof.
                          if String.eqb t sd_tag then
                            match kv with
                            | YStr ks =>
-                               do (v', ps) <- collect (path ++ [ks]) v;
+                               do (v', ps) <- collect (path ++ [esc_tok ks]) v;
                                do (rest', ps') <- go rest;
-                               Ok ((YStr ks, v') :: rest', (ps ++ [render_segs (path ++ [ks])] ++ ps')%list)
+                               Ok ((YStr ks, v') :: rest', (ps ++ [render_segs (path ++ [esc_tok ks])] ++ ps')%list)
                            | _ => Err end
                          else do (rest', ps') <- go rest; Ok ((k, v) :: rest', ps')
                      | YStr ks =>
-                         do (v', ps) <- collect (path ++ [ks]) v;
+                         do (v', ps) <- collect (path ++ [esc_tok ks]) v;
                          do (rest', ps') <- go rest;
                          Ok ((k, v') :: rest', (ps ++ ps')%list)
                      | _ => do (rest', ps') <- go rest; Ok ((k, v) :: rest', ps')
@@ -104,7 +104,7 @@ Fixpoint ytree (path : list string) (j : json) : yaml :=
   | JObj kvs => YMap ((fix go (l : list (string * json)) : list (yaml * yaml) :=
         match l with
         | [] => []
-        | (k, v) :: r => ((if marked (path ++ [k]) then YTag sd_tag (YStr k) else YStr k), ytree (path ++ [k]) v) :: go r
+        | (k, v) :: r => ((if marked (path ++ [esc_tok k]) then YTag sd_tag (YStr k) else YStr k), ytree (path ++ [esc_tok k]) v) :: go r
         end) kvs)
   end.
 
@@ -131,7 +131,7 @@ Fixpoint epaths (path : list string) (j : json) : list string :=
         match l with
         | [] => []
         | (k, v) :: r =>
-            ((epaths (path ++ [k]) v ++ (if marked (path ++ [k]) then [render_segs (path ++ [k])] else [])) ++ go r)%list
+            ((epaths (path ++ [esc_tok k]) v ++ (if marked (path ++ [esc_tok k]) then [render_segs (path ++ [esc_tok k])] else [])) ++ go r)%list
         end) kvs
   | _ => [] end.
 
@@ -195,12 +195,12 @@ Proof.
     set (goy := fix go (l : list (string * json)) : list (yaml * yaml) :=
             match l with
             | [] => []
-            | (k, v) :: r => ((if marked (path ++ [k]) then YTag sd_tag (YStr k) else YStr k), ytree (path ++ [k]) v) :: go r
+            | (k, v) :: r => ((if marked (path ++ [esc_tok k]) then YTag sd_tag (YStr k) else YStr k), ytree (path ++ [esc_tok k]) v) :: go r
             end).
     set (goe := fix go (l : list (string * json)) : list string :=
                match l with
                | [] => []
-               | (k, v) :: r => ((epaths (path ++ [k]) v ++ (if marked (path ++ [k]) then [render_segs (path ++ [k])] else [])) ++ go r)%list
+               | (k, v) :: r => ((epaths (path ++ [esc_tok k]) v ++ (if marked (path ++ [esc_tok k]) then [render_segs (path ++ [esc_tok k])] else [])) ++ go r)%list
                end).
     set (loop := fix go (l : list (yaml * yaml)) : res (list (yaml * yaml) * list string) :=
          match l with
@@ -211,13 +211,13 @@ Proof.
                  if String.eqb t sd_tag then
                    match kv with
                    | YStr ks =>
-                       do (v', ps) <- collect (path ++ [ks]) v;
+                       do (v', ps) <- collect (path ++ [esc_tok ks]) v;
                        do (rest', ps') <- go rest;
-                       Ok ((YStr ks, v') :: rest', (ps ++ [render_segs (path ++ [ks])] ++ ps')%list)
+                       Ok ((YStr ks, v') :: rest', (ps ++ [render_segs (path ++ [esc_tok ks])] ++ ps')%list)
                    | _ => Err end
                  else do (rest', ps') <- go rest; Ok ((k, v) :: rest', ps')
              | YStr ks =>
-                 do (v', ps) <- collect (path ++ [ks]) v;
+                 do (v', ps) <- collect (path ++ [esc_tok ks]) v;
                  do (rest', ps') <- go rest;
                  Ok ((k, v') :: rest', (ps ++ ps')%list)
              | _ => do (rest', ps') <- go rest; Ok ((k, v) :: rest', ps')
@@ -225,22 +225,22 @@ Proof.
          end).
     assert (Hgo : loop (goy kvs) = Ok (map (fun kv : string * json => let '(k, v) := kv in (YStr k, yplain v)) kvs, goe kvs)).
     { induction IH as [|[k v] r Hv _ IHr]; [reflexivity|]. cbn [snd] in Hv.
-      change (goy ((k, v) :: r)) with (((if marked (path ++ [k]) then YTag sd_tag (YStr k) else YStr k), ytree (path ++ [k]) v) :: goy r).
-      change (goe ((k, v) :: r)) with ((epaths (path ++ [k]) v ++ (if marked (path ++ [k]) then [render_segs (path ++ [k])] else [])) ++ goe r)%list.
+      change (goy ((k, v) :: r)) with (((if marked (path ++ [esc_tok k]) then YTag sd_tag (YStr k) else YStr k), ytree (path ++ [esc_tok k]) v) :: goy r).
+      change (goe ((k, v) :: r)) with ((epaths (path ++ [esc_tok k]) v ++ (if marked (path ++ [esc_tok k]) then [render_segs (path ++ [esc_tok k])] else [])) ++ goe r)%list.
       cbn [map].
-      destruct (marked (path ++ [k])).
-      - change (loop ((YTag sd_tag (YStr k), ytree (path ++ [k]) v) :: goy r)) with
+      destruct (marked (path ++ [esc_tok k])).
+      - change (loop ((YTag sd_tag (YStr k), ytree (path ++ [esc_tok k]) v) :: goy r)) with
           (if String.eqb sd_tag sd_tag then
-             do (v', ps) <- collect (path ++ [k]) (ytree (path ++ [k]) v);
+             do (v', ps) <- collect (path ++ [esc_tok k]) (ytree (path ++ [esc_tok k]) v);
              do (rest', ps') <- loop (goy r);
-             Ok ((YStr k, v') :: rest', (ps ++ [render_segs (path ++ [k])] ++ ps')%list)
-           else do (rest', ps') <- loop (goy r); Ok ((YTag sd_tag (YStr k), ytree (path ++ [k]) v) :: rest', ps')).
-        rewrite String.eqb_refl, (Hv (path ++ [k])%list), IHr. cbn [bind]. rewrite <- !app_assoc. reflexivity.
-      - change (loop ((YStr k, ytree (path ++ [k]) v) :: goy r)) with
-          (do (v', ps) <- collect (path ++ [k]) (ytree (path ++ [k]) v);
+             Ok ((YStr k, v') :: rest', (ps ++ [render_segs (path ++ [esc_tok k])] ++ ps')%list)
+           else do (rest', ps') <- loop (goy r); Ok ((YTag sd_tag (YStr k), ytree (path ++ [esc_tok k]) v) :: rest', ps')).
+        rewrite String.eqb_refl, (Hv (path ++ [esc_tok k])%list), IHr. cbn [bind]. rewrite <- !app_assoc. reflexivity.
+      - change (loop ((YStr k, ytree (path ++ [esc_tok k]) v) :: goy r)) with
+          (do (v', ps) <- collect (path ++ [esc_tok k]) (ytree (path ++ [esc_tok k]) v);
            do (rest', ps') <- loop (goy r);
            Ok ((YStr k, v') :: rest', (ps ++ ps')%list)).
-        rewrite (Hv (path ++ [k])%list), IHr. cbn [bind]. rewrite app_nil_r. reflexivity. }
+        rewrite (Hv (path ++ [esc_tok k])%list), IHr. cbn [bind]. rewrite app_nil_r. reflexivity. }
     rewrite Hgo. reflexivity.
 Qed.
 End Tagged.
